@@ -817,6 +817,33 @@ impl Run {
         won
     }
 
+    /// A write may block for good while the background thread is parked at a gate: it waits
+    /// for the flush of a rotated memtable when the active one is full. Writes of the gated
+    /// rounds therefore only start when no rotated memtable is pending and the thread is not
+    /// parked yet (single writer: nothing can change that between the check and the write).
+    /// Returns false if the thread is parked (stop writing) and true if it is safe to write.
+    fn safe_to_write(&self, bg: &str, point: &'static str) -> bool {
+        let t0 = Instant::now();
+        loop {
+            if self.ctx.gates.is_parked(bg, point) {
+                return false;
+            }
+            let has_imm = self.held[0]
+                .1
+                .verif_try_state(Duration::from_secs(5))
+                .map(|d| d.has_imm)
+                .unwrap_or(true);
+            if !has_imm {
+                // (re-check the gate: the thread may have parked with the flush still to do)
+                return !self.ctx.gates.is_parked(bg, point);
+            }
+            if t0.elapsed() > Duration::from_secs(10) {
+                return false;
+            }
+            std::thread::sleep(Duration::from_millis(1));
+        }
+    }
+
     fn busy_owner(&mut self) {
         // with the small memtable a few probes rotate the memtable: background work is scheduled
         // when the handle is dropped
@@ -1077,11 +1104,17 @@ impl Run {
                 self.ctx.gates.arm(BG, "create_table");
                 let mut parked = false;
                 for _ in 0..30 {
+                    if !self.safe_to_write(BG, "create_table") {
+                        break;
+                    }
                     self.probe_all();
+                }
+                for _ in 0..40 {
                     if self.ctx.gates.is_parked(BG, "create_table") {
                         parked = true;
                         break;
                     }
+                    std::thread::sleep(Duration::from_millis(5));
                 }
                 if !parked {
                     self.ctx.gates.disarm(BG, "create_table");
@@ -1126,16 +1159,26 @@ impl Run {
                 for _ in 0..80 {
                     // a key below all probe keys in every memtable: the level-0 tables overlap,
                     // so compacting them is a merge and not a trivial move
+                    if !self.safe_to_write(BG, "compact_loop") {
+                        break;
+                    }
                     let _ = self.held[0].1.put(
                         WriteOptions::default(),
                         b"pa".to_vec(),
                         self.ctx.val(0),
                     );
+                    if !self.safe_to_write(BG, "compact_loop") {
+                        break;
+                    }
                     self.probe_all();
+                }
+                // (give a compaction that is just starting the time to reach the gate)
+                for _ in 0..40 {
                     if self.ctx.gates.is_parked(BG, "compact_loop") {
                         parked = true;
                         break;
                     }
+                    std::thread::sleep(Duration::from_millis(5));
                 }
                 if !parked {
                     self.ctx.gates.disarm(BG, "compact_loop");
